@@ -133,3 +133,21 @@ Definition page_prop (c : Z * Z * Z * res (list Z * Z * error)) : bool :=
   | Some e => eqb_page o (Val ([], 0, Some e))
   | None => eqb_page o (Val (chunk (zseq 0 (Z.to_nat len)) size pageN, page_count len size, None))
   end.
+
+(* the unpaged answer of a query is ordered: keys (block seq, pool transactions of mixed queries left out;
+   hash for pool-only queries) non-decreasing (asc) / non-increasing (desc) *)
+Fixpoint sorted_by (le : Z -> Z -> bool) (l : list Z) : bool :=
+  match l with
+  | a :: ((b :: _) as r) => le a b && sorted_by le r
+  | _ => true
+  end.
+Definition order_ok (c : bool * list Z) : bool :=
+  let '(desc, keys) := c in
+  if desc then sorted_by Z.geb keys else sorted_by Z.leb keys.
+
+(* one paging session of a real query against the model: page n of the query =
+   page n of its unpaged answer (positions 0..len-1) *)
+Definition session_matches (c : Z * Z * list (Z * res (list Z * Z * error))) : bool :=
+  let '(len, size, obs) := c in
+  forallb (fun x : Z * res (list Z * Z * error) =>
+             let '(n, o) := x in eqb_page (page (zseq 0 (Z.to_nat len)) size n) o) obs.
